@@ -168,6 +168,10 @@ def c_two_banks(busw, shared=False):
     if shared: h.ensure_seq("ens.read.m2", lambda at: at(h.v(d.m2.dat_r), 1) == at(spec, 0))
     h.ensure("ens.frame.other-bank", z3.Implies(page != K(2, 5), h.n(d.bq.storage) == h.v(d.bq.storage)))
     h.ensure("ens.write.bank2", z3.Implies(z3.And(page == K(2, 5), idx == K(0, 9), b(h.v(m.we))), h.n(d.bq.storage) == z3.Extract(6, 0, h.v(m.dat_w))))
+    # every bank port sees exactly the request of the (one active) master: address, write strobe, READ strobe and write data - the read strobe is
+    # what read-sensitive registers (CSRStatus.we, pop-on-read ports) are driven by, "strobes ... caused only by accesses to that register"
+    for nme in ("adr", "we", "re", "dat_w"):
+        h.ensure(f"ens.fwd.{nme}", z3.And(*[h.v(getattr(sl, nme)) == h.v(getattr(m, nme)) for sl in (d.b1, d.b2)]))
     h.cover("cover.read", z3.And(page == K(1, 5), b(h.v(m.re))), depth=1)
     h.functions = ["litex.soc.interconnect.csr_bus.Interconnect.__init__", "litex.soc.interconnect.csr_bus.InterconnectShared.__init__", "litex.soc.interconnect.csr_bus.Interface.connect"]
     return h
